@@ -222,7 +222,18 @@ def oracle_status(case) -> Result:
     return r
 
 
-SUBS = {"responses": oracle, "statuses": oracle_status, "filegrid": oracle}
+SUBS = {"responses": oracle, "statuses": oracle_status, "filegrid": oracle, "sse_idle": oracle}
+
+
+def sse_idle_cases():
+    """Event streams whose producer stays silent for several ping intervals (before the first event, between
+    events, before the end): the keep-alive pings are body items like any other."""
+    for charset in (None, "utf-8", "latin-1", "gbk"):
+        for events, delays in (([{"data": "x"}], [0.04]), ([{"data": "x"}, {"data": "é", "id": "1"}], [0, 0.04]), ([], []), ([{"data": "a\nb", "event": "e"}], [0.025])):
+            recipe = {"kind": "sse", "events": events, "delays": delays, "ping_interval": 0.01}
+            if charset:
+                recipe["charset"] = charset
+            yield {"response": recipe, "request": {"method": "GET"}}
 
 
 @st.composite
@@ -268,5 +279,7 @@ def run(rec, only=None):
     rec.exhaustive["statuses"] = not quick
     core.drive_cases(rec, "filegrid", file_grid(quick), oracle)
     rec.exhaustive["filegrid"] = True
+    core.drive_cases(rec, "sse_idle", sse_idle_cases(), oracle)
+    rec.exhaustive["sse_idle"] = True
     core.drive_hypothesis(rec, "responses", response_case(), oracle, 1500 if quick else 30000)
     rec.exhaustive["responses"] = False
